@@ -2164,14 +2164,20 @@ class _GroupElem(ABC):
                 else:
                     # This is the most time-consuming method.
                     # We need to construct the Jacobian matrices here.
+                    # the residual is measured in element sizes: the tolerances of the
+                    # solver are then relative ones, whatever the unit of length
+                    size = np.abs(coordElemBase[:, :dim] - x0).max()
+
                     def Eval(xi: _types.FloatArray, xP: _types.FloatArray):
                         N = _GroupElem._Eval_Functions(N_tild, xi.reshape(1, -1))
-                        J = N[0, 0] @ coordElemBase[:, :dim] - xP  # x(xi) - xP
+                        J = (N[0, 0] @ coordElemBase[:, :dim] - xP) / size  # x(xi) - xP
                         return J
 
                     xiP = []
                     for xP in xP_n:
-                        res = least_squares(Eval, 0 * xP, args=(xP,))
+                        res = least_squares(
+                            Eval, 0 * xP, args=(xP,), xtol=1e-14, ftol=1e-14, gtol=1e-14
+                        )
                         xiP.append(res.x)
 
                 # xiP are the n coordinates of the n points in (ξ, η, ζ).
